@@ -1,7 +1,10 @@
 //! Correspondence harness for engine `iter` (property C15): drives
 //! rlib_iter::{iter_submasks, iter_supermasks, next_permutation, iter_permutations, iter_neighbours_4/4d/8}.
 //!
-//! Case lines:  `sub:<ty> x` | `sup:<ty> x` | `np a,b,c` | `perms a,b,c` | `n4|n4d|n8 n m i j`
+//! Case lines:  `sub:<ty> x` | `sup:<ty> x` | `np a,b,c` | `npk K a,b,c` | `perms a,b,c` | `n4|n4d|n8 n m i j`
+//!              `it <sub:<ty> x | sup:<ty> x | perms a,b,c | n4|n4d|n8 n m i j> ; op ; op ; …`  a script of `Iterator`
+//!              method calls on ONE iterator value (see `run_script`): every provided method an iterator type can
+//!              override, also after partial consumption, with other live iterators of the same kind stepped in between.
 //! Output:      `I <raw> | V <view>` where `view = raw` when the brute-force oracle written here agrees with
 //!              the collected output and `oracle-mismatch <raw>` otherwise (the property fixes the value).
 #[path = "../../common/mod.rs"]
@@ -13,6 +16,7 @@ use rlib_iter::{
 };
 use std::collections::HashMap;
 use std::fmt::Display;
+use std::sync::atomic::{AtomicU64, Ordering};
 
 const TYPES: [&str; 12] = [
     "i8", "u8", "i16", "u16", "i32", "u32", "i64", "u64", "i128", "u128", "isize", "usize",
@@ -235,6 +239,120 @@ impl PermOracle {
 }
 
 const PERM_ORACLE_MAX_LEN: usize = 9;
+/// longest sequence `np` / `npk` / `perms` / scripts accept (the driver has the same guard)
+const MAX_SEQ_LEN: usize = 64;
+/// `perms` lists at most this many arrangements for sequences longer than 9
+const MAX_ARRANGEMENTS: u128 = 100_000;
+/// scripts: at most this many arrangements / 2^16 masks; `min`/`max` family (quadratic specification) at most 1024 elements
+const SCRIPT_MAX_ARRANGEMENTS: u128 = 50_000;
+const SCRIPT_MAX_FREE_BITS: u32 = 16;
+const SCRIPT_MINMAX_MAX: u128 = 1024;
+
+/// Successor of a long sequence, from the definition of the lexicographic order (no "non-increasing tail"
+/// reasoning): the successor shares the longest possible prefix with `d`; at the first position `p` where it
+/// differs it carries the smallest value available behind `p` that is above `d[p]`; what follows is the least
+/// arrangement (sorted) of what is left.  When no position admits a larger value: the sorted arrangement, `false`.
+fn oracle_successor_long(d: &[i64]) -> (Vec<i64>, bool) {
+    for p in (0..d.len()).rev() {
+        let rest = &d[p + 1..];
+        if let Some(&c) = rest.iter().filter(|&&v| v > d[p]).min() {
+            let mut out = d[..p].to_vec();
+            out.push(c);
+            let mut tail = rest.to_vec();
+            let k = tail.iter().position(|&v| v == c).unwrap();
+            tail[k] = d[p];
+            tail.sort();
+            out.extend(tail);
+            return (out, true);
+        }
+    }
+    let mut s = d.to_vec();
+    s.sort();
+    (s, false)
+}
+
+/// number of distinct arrangements `n! / prod(multiplicity!)` as a product of binomials; `None` when above `cap`
+fn num_arrangements(d: &[i64], cap: u128) -> Option<u128> {
+    let mut s = d.to_vec();
+    s.sort();
+    let mut total: u128 = 1;
+    let mut placed: u128 = 0;
+    let mut k = 0;
+    while k < s.len() {
+        let mut c = 1;
+        while k + c < s.len() && s[k + c] == s[k] {
+            c += 1;
+        }
+        // C(placed + c, c), exact at every step
+        let mut b: u128 = 1;
+        for i in 1..=(c as u128) {
+            b = b * (placed + i) / i;
+            if b > cap {
+                return None;
+            }
+        }
+        total = total.checked_mul(b)?;
+        if total > cap {
+            return None;
+        }
+        placed += c as u128;
+        k += c;
+    }
+    Some(total)
+}
+
+/// every distinct arrangement of a multiset in lexicographic order, directly: the next element runs through the
+/// distinct values still available, in increasing order
+fn distinct_arrangements(counts: &mut Vec<(i64, usize)>, cur: &mut Vec<i64>, n: usize, out: &mut Vec<Vec<i64>>) {
+    if cur.len() == n {
+        out.push(cur.clone());
+        return;
+    }
+    for k in 0..counts.len() {
+        if counts[k].1 > 0 {
+            counts[k].1 -= 1;
+            cur.push(counts[k].0);
+            distinct_arrangements(counts, cur, n, out);
+            cur.pop();
+            counts[k].1 += 1;
+        }
+    }
+}
+
+fn oracle_arrangements_long(d: &[i64]) -> Vec<Vec<i64>> {
+    let mut s = d.to_vec();
+    s.sort();
+    let mut counts: Vec<(i64, usize)> = Vec::new();
+    for v in s {
+        match counts.last_mut() {
+            Some(l) if l.0 == v => l.1 += 1,
+            _ => counts.push((v, 1)),
+        }
+    }
+    let mut out = Vec::new();
+    distinct_arrangements(&mut counts, &mut Vec::new(), d.len(), &mut out);
+    out
+}
+
+/// the expected output of `iter_permutations(d)`: table of all orderings sorted and deduplicated (by definition) for
+/// short sequences, the direct enumeration for long ones
+fn oracle_perms(po: &mut PermOracle, d: &[i64]) -> Vec<Vec<i64>> {
+    if d.len() <= PERM_ORACLE_MAX_LEN {
+        po.table(d).clone()
+    } else {
+        oracle_arrangements_long(d)
+    }
+}
+
+fn perms_listable(d: &[i64]) -> Option<u128> {
+    if d.len() <= PERM_ORACLE_MAX_LEN {
+        Some(num_arrangements(d, u128::MAX).unwrap_or(u128::MAX))
+    } else if d.len() <= MAX_SEQ_LEN {
+        num_arrangements(d, MAX_ARRANGEMENTS)
+    } else {
+        None
+    }
+}
 
 fn oracle_neighbours(kind: &str, n: u64, m: u64, i: u64, j: u64) -> Vec<(u64, u64)> {
     let pred = |da: i128, db: i128| -> bool {
@@ -284,8 +402,49 @@ fn keyed(v: i64) -> Keyed {
     Keyed { key: format!("{:020}", (v as i128 - i64::MIN as i128) as u128), val: v }
 }
 
+/// A record ordered by `key` alone: records that compare equal are still distinguishable by `tag`.  Whatever the
+/// functions do with equal elements, the records they hand back must be the ones they were given (each exactly once).
+#[derive(Clone, Debug)]
+struct Tagged {
+    key: i64,
+    tag: usize,
+}
+impl PartialEq for Tagged {
+    fn eq(&self, o: &Self) -> bool {
+        self.key == o.key
+    }
+}
+impl Eq for Tagged {}
+impl PartialOrd for Tagged {
+    fn partial_cmp(&self, o: &Self) -> Option<std::cmp::Ordering> {
+        Some(self.cmp(o))
+    }
+}
+impl Ord for Tagged {
+    fn cmp(&self, o: &Self) -> std::cmp::Ordering {
+        self.key.cmp(&o.key)
+    }
+}
+
+fn tagged(d: &[i64]) -> Vec<Tagged> {
+    d.iter().enumerate().map(|(tag, &key)| Tagged { key, tag }).collect()
+}
+
+/// keys as expected, and the tags are 0..n, each once
+fn tagged_ok(v: &[Tagged], keys: &[i64]) -> bool {
+    let mut seen = vec![false; v.len()];
+    v.len() == keys.len()
+        && v.iter().zip(keys).all(|(t, &k)| t.key == k)
+        && v.iter().all(|t| t.tag < seen.len() && !std::mem::replace(&mut seen[t.tag], true))
+}
+
 fn generic_np_agrees(d: &[i64], expect: &(Vec<i64>, bool)) -> bool {
     use std::cmp::Reverse;
+    let mut c = tagged(d);
+    let fc = next_permutation(&mut c);
+    if fc != expect.1 || !tagged_ok(&c, &expect.0) {
+        return false;
+    }
     let mut a: Vec<Reverse<i128>> = d.iter().map(|&v| Reverse(-(v as i128))).collect();
     let fa = next_permutation(&mut a);
     let ra: Vec<i64> = a.iter().map(|r| (-r.0) as i64).collect();
@@ -298,7 +457,11 @@ fn generic_np_agrees(d: &[i64], expect: &(Vec<i64>, bool)) -> bool {
 fn generic_perms_agree(d: &[i64], expect: &[Vec<i64>], limit: usize) -> bool {
     let b: Vec<Keyed> = d.iter().map(|&v| keyed(v)).collect();
     let got: Vec<Vec<i64>> = iter_permutations(b).take(limit).map(|l| l.iter().map(|k| k.val).collect()).collect();
-    got.as_slice() == expect
+    if got.as_slice() != expect {
+        return false;
+    }
+    let c: Vec<Vec<Tagged>> = iter_permutations(tagged(d)).take(limit).collect();
+    c.len() == expect.len() && c.iter().zip(expect).all(|(t, k)| tagged_ok(t, k))
 }
 
 /// `diff` = `Some(Some(explanation))` when the brute-force oracle disagrees with the collected output: the view then
@@ -383,11 +546,10 @@ fn parse_list(tok: &str) -> Vec<i64> {
     }
 }
 
-fn factorial(n: usize) -> usize {
-    (1..=n).product::<usize>().max(1)
-}
-
 fn run_case(po: &mut PermOracle, line: &str) -> String {
+    if line.starts_with("it ") {
+        return run_script_case(po, line);
+    }
     let toks: Vec<&str> = line.split_whitespace().collect();
     if toks.is_empty() {
         return "I bad-line | V bad-line".to_string();
@@ -413,12 +575,8 @@ fn run_case(po: &mut PermOracle, line: &str) -> String {
                     if catch(|| generic_np_agrees(&d, &res)) != Ok(true) {
                         return out2(&raw, &format!("generic-mismatch {}", raw));
                     }
-                    let diff = if d.len() <= PERM_ORACLE_MAX_LEN {
-                        let want = po.successor(&d);
-                        Some(if want == res { None } else { Some(format!("want {} {}", show_ints(&want.0), want.1)) })
-                    } else {
-                        None
-                    };
+                    let want = if d.len() <= PERM_ORACLE_MAX_LEN { po.successor(&d) } else { oracle_successor_long(&d) };
+                    let diff = Some(if want == res { None } else { Some(format!("want {} {}", show_ints(&want.0), want.1)) });
                     with_oracle(raw, diff)
                 }
             }
@@ -427,7 +585,7 @@ fn run_case(po: &mut PermOracle, line: &str) -> String {
             // `npk K a,b,c`: K successive calls of next_permutation; digest of every intermediate content and flag
             let k: usize = toks[1].parse().unwrap_or(0);
             let d = parse_list(toks[2]);
-            if k > MAX_STEPS || d.len() > PERM_ORACLE_MAX_LEN {
+            if k > MAX_STEPS || d.len() > MAX_SEQ_LEN {
                 return out1("refused:too-many-elements");
             }
             let mut v = d.clone();
@@ -455,7 +613,7 @@ fn run_case(po: &mut PermOracle, line: &str) -> String {
                     falses += 1;
                 }
                 if expl.is_none() {
-                    let want = po.successor(&before);
+                    let want = if before.len() <= PERM_ORACLE_MAX_LEN { po.successor(&before) } else { oracle_successor_long(&before) };
                     if want != (v.clone(), b) {
                         expl = Some(format!(
                             "@step {} from {} got {} {} want {} {}",
@@ -474,18 +632,38 @@ fn run_case(po: &mut PermOracle, line: &str) -> String {
         }
         ("perms", 2) => {
             let d = parse_list(toks[1]);
-            if d.len() > PERM_ORACLE_MAX_LEN {
-                return out1("refused:too-many-elements");
-            }
-            let limit = factorial(d.len()) + 2;
+            // the output has `n! / prod(multiplicity!)` elements; two more are asked for, so that an over-long (or endless)
+            // iterator is seen, not waited for
+            let count = match perms_listable(&d) {
+                Some(c) => c as usize,
+                None => return out1("refused:too-many-elements"),
+            };
+            let limit = count + 2;
             match catch(|| iter_permutations(d.clone()).take(limit).collect::<Vec<Vec<i64>>>()) {
                 Err(e) => out1(&e),
                 Ok(ls) => {
-                    if d.len() <= 7 && catch(|| generic_perms_agree(&d, &ls, limit)) != Ok(true) {
+                    if (d.len() <= 7 || (d.len() > PERM_ORACLE_MAX_LEN && count <= 2000))
+                        && catch(|| generic_perms_agree(&d, &ls, limit)) != Ok(true)
+                    {
                         return out2(&show_perms(&ls), &format!("generic-mismatch {}", show_perms(&ls)));
                     }
-                    let diff =
-                        if d.len() <= PERM_ORACLE_MAX_LEN { Some(first_diff(&ls, po.table(&d), |l| show_ints(l))) } else { None };
+                    // re-use of what the iterator returned: every arrangement handed out, given to `next_permutation`,
+                    // steps to the one handed out next (the last one wraps to the first, `false`)
+                    if ls.len() == count && count <= 6000 {
+                        for k in 0..ls.len() {
+                            let mut v = ls[k].clone();
+                            let r = catch(|| {
+                                let b = next_permutation(&mut v);
+                                (v, b)
+                            });
+                            let want = (ls[(k + 1) % ls.len()].clone(), k + 1 < ls.len());
+                            if r.as_ref() != Ok(&want) {
+                                let raw = show_perms(&ls);
+                                return out2(&raw, &format!("reuse-mismatch next_permutation(item {}) is not item {} :: {}", k, k + 1, raw));
+                            }
+                        }
+                    }
+                    let diff = Some(first_diff(&ls, &oracle_perms(po, &d), |l| show_ints(l)));
                     with_oracle(show_perms(&ls), diff)
                 }
             }
@@ -508,6 +686,657 @@ fn run_case(po: &mut PermOracle, line: &str) -> String {
                     let diff = if got == want { None } else { Some(format!("want-set {}", join(&want, |p| format!("({},{})", p.0, p.1)))) };
                     with_oracle(raw, Some(diff))
                 }
+            }
+        }
+        _ => "I bad-op | V bad-op".to_string(),
+    }
+}
+
+// ---------------------------------------------------------------- scripts: the iterator protocol
+
+/// What a script needs to know about the items of an iterator.
+trait Elem: Ord + Clone + 'static {
+    fn show(&self) -> String;
+    fn parse(tok: &str) -> Option<Self>;
+    /// parity of the sum of the components (the value itself for integers)
+    fn parity(&self) -> bool;
+    fn show_coll(v: &[Self]) -> String;
+    /// 128-bit fingerprint (used to compare the other live iterators of a script with their own fresh runs)
+    fn print(&self) -> u128;
+    /// `Iterator::sum` / `product` of the real iterator; `None`: the items are not numbers
+    fn sum_real<I: Iterator<Item = Self>>(_it: I) -> Option<String> {
+        None
+    }
+    fn product_real<I: Iterator<Item = Self>>(_it: I) -> Option<String> {
+        None
+    }
+    /// the same from a slice, with checked arithmetic step by step
+    fn sum_want(_v: &[Self]) -> Option<String> {
+        None
+    }
+    fn product_want(_v: &[Self]) -> Option<String> {
+        None
+    }
+}
+
+macro_rules! impl_elem_int {
+    ($($t:ty, $ut:ty);*) => {$(
+        impl Elem for $t {
+            fn show(&self) -> String {
+                self.to_string()
+            }
+            fn parse(tok: &str) -> Option<Self> {
+                tok.parse::<$t>().ok()
+            }
+            fn parity(&self) -> bool {
+                (*self & 1) != 0
+            }
+            fn show_coll(v: &[Self]) -> String {
+                let bits: Vec<u128> = v.iter().map(|&s| (s as $ut) as u128).collect();
+                show_masks(v, &bits)
+            }
+            fn print(&self) -> u128 {
+                (*self as $ut) as u128
+            }
+            fn sum_real<I: Iterator<Item = Self>>(it: I) -> Option<String> {
+                Some(it.sum::<$t>().to_string())
+            }
+            fn product_real<I: Iterator<Item = Self>>(it: I) -> Option<String> {
+                Some(it.product::<$t>().to_string())
+            }
+            fn sum_want(v: &[Self]) -> Option<String> {
+                let mut a: $t = 0;
+                for &b in v {
+                    match a.checked_add(b) {
+                        Some(c) => a = c,
+                        None => return Some("panic:overflow".to_string()),
+                    }
+                }
+                Some(a.to_string())
+            }
+            fn product_want(v: &[Self]) -> Option<String> {
+                let mut a: $t = 1;
+                for &b in v {
+                    match a.checked_mul(b) {
+                        Some(c) => a = c,
+                        None => return Some("panic:overflow".to_string()),
+                    }
+                }
+                Some(a.to_string())
+            }
+        }
+    )*};
+}
+impl_elem_int!(i8, u8; u8, u8; i16, u16; u16, u16; i32, u32; u32, u32; i64, u64; u64, u64; i128, u128; u128, u128; isize, usize; usize, usize);
+
+impl Elem for Vec<i64> {
+    fn show(&self) -> String {
+        show_ints(self)
+    }
+    fn parse(tok: &str) -> Option<Self> {
+        if tok == "-" || tok.is_empty() {
+            return Some(Vec::new());
+        }
+        tok.split(',').map(|t| t.parse::<i64>().ok()).collect()
+    }
+    fn parity(&self) -> bool {
+        self.iter().map(|&v| v as i128).sum::<i128>().rem_euclid(2) == 1
+    }
+    fn show_coll(v: &[Self]) -> String {
+        show_perms(v)
+    }
+    fn print(&self) -> u128 {
+        let mut h = HASH_INIT;
+        for &z in self {
+            h = hash_step(h, z as u64);
+        }
+        ((self.len() as u128) << 64) | h as u128
+    }
+}
+
+impl Elem for (usize, usize) {
+    fn show(&self) -> String {
+        format!("({},{})", self.0, self.1)
+    }
+    fn parse(tok: &str) -> Option<Self> {
+        let (a, b) = tok.split_once(',')?;
+        Some((a.parse::<usize>().ok()?, b.parse::<usize>().ok()?))
+    }
+    fn parity(&self) -> bool {
+        (self.0 as u128 + self.1 as u128) % 2 == 1
+    }
+    fn show_coll(v: &[Self]) -> String {
+        join(v, |p| p.show())
+    }
+    fn print(&self) -> u128 {
+        ((self.0 as u128) << 64) | self.1 as u128
+    }
+}
+
+fn parse_pred<E: Elem>(tok: &str) -> Option<Box<dyn Fn(&E) -> bool>> {
+    if tok == "par" {
+        return Some(Box::new(|e: &E| e.parity()));
+    }
+    let (k, v) = tok.split_once(':')?;
+    if v.contains(':') {
+        return None;
+    }
+    let e = E::parse(v)?;
+    match k {
+        "eq" => Some(Box::new(move |x: &E| *x == e)),
+        "lt" => Some(Box::new(move |x: &E| *x < e)),
+        "ge" => Some(Box::new(move |x: &E| *x >= e)),
+        _ => None,
+    }
+}
+
+fn parse_key<E: Elem>(tok: &str) -> Option<fn(&E) -> u8> {
+    match tok {
+        "par" => Some(|e: &E| e.parity() as u8),
+        "c0" => Some(|_e: &E| 0u8),
+        _ => None,
+    }
+}
+
+/// is this (well-formed) op one of the `min` / `max` family?  (the driver has the same test)
+fn is_minmax(seg: &str) -> bool {
+    let t: Vec<&str> = seg.split_whitespace().collect();
+    match t.as_slice() {
+        ["min"] | ["max"] => true,
+        ["minkey", k] | ["maxkey", k] | ["minby", k] | ["maxby", k] => *k == "par" || *k == "c0",
+        _ => false,
+    }
+}
+
+fn show_opt<E: Elem>(name: &str, v: Option<E>) -> String {
+    match v {
+        Some(e) => format!("{}={}", name, e.show()),
+        None => format!("{}=None", name),
+    }
+}
+
+/// What the ops mean, from the expected sequence `o` (the harness' own brute-force oracle) and a cursor: `pos` =
+/// `Some(number of items consumed)`, `None` once the iterator is gone (has returned `None` or was consumed by value).
+fn want_step<E: Elem>(o: &[E], pos: &mut Option<usize>, seg: &str) -> String {
+    let t: Vec<&str> = seg.split_whitespace().collect();
+    let p = match *pos {
+        None => return "-".to_string(),
+        Some(p) => p,
+    };
+    let rest = &o[p..];
+    let after_match = |pos: &mut Option<usize>, k: Option<usize>| {
+        *pos = k.map(|k| p + k + 1);
+    };
+    match t.as_slice() {
+        ["next"] => {
+            *pos = if rest.is_empty() { None } else { Some(p + 1) };
+            show_opt("next", rest.first().cloned())
+        }
+        ["hint"] => "hint=ok".to_string(),
+        ["nth", k] => match k.parse::<usize>() {
+            Ok(k) => {
+                *pos = if k < rest.len() { Some(p + k + 1) } else { None };
+                show_opt("nth", rest.get(k).cloned())
+            }
+            Err(_) => "bad-op".to_string(),
+        },
+        ["take", k] => match k.parse::<usize>() {
+            Ok(k) => {
+                *pos = if k <= rest.len() { Some(p + k) } else { None };
+                format!("take={}", E::show_coll(&rest[..k.min(rest.len())]))
+            }
+            Err(_) => "bad-op".to_string(),
+        },
+        ["find", pr] | ["position", pr] | ["any", pr] | ["all", pr] => match parse_pred::<E>(pr) {
+            Some(f) => {
+                let neg = t[0] == "all";
+                let k = rest.iter().position(|e| f(e) != neg);
+                after_match(pos, k);
+                match t[0] {
+                    "find" => show_opt("find", k.map(|k| rest[k].clone())),
+                    "position" => k.map_or("position=None".to_string(), |k| format!("position={}", k)),
+                    "any" => format!("any={}", k.is_some()),
+                    _ => format!("all={}", k.is_none()),
+                }
+            }
+            None => "bad-op".to_string(),
+        },
+        ["count"] => {
+            *pos = None;
+            format!("count={}", rest.len())
+        }
+        ["last"] | ["reduce"] => {
+            *pos = None;
+            show_opt(t[0], rest.last().cloned())
+        }
+        ["fold"] | ["foreach"] | ["collect"] => {
+            *pos = None;
+            format!("{}={}", t[0], E::show_coll(rest))
+        }
+        ["min"] | ["max"] => {
+            *pos = None;
+            // least: the first one; greatest: the last one
+            let mut best: Option<&E> = None;
+            for e in rest {
+                best = match best {
+                    None => Some(e),
+                    Some(b) if t[0] == "min" && e < b => Some(e),
+                    Some(b) if t[0] == "max" && e >= b => Some(e),
+                    b => b,
+                };
+            }
+            show_opt(t[0], best.cloned())
+        }
+        ["minkey", k] | ["maxkey", k] | ["minby", k] | ["maxby", k] => match parse_key::<E>(k) {
+            Some(key) => {
+                *pos = None;
+                let min = t[0].starts_with("min");
+                let mut best: Option<&E> = None;
+                for e in rest {
+                    best = match best {
+                        None => Some(e),
+                        Some(b) if min && key(e) < key(b) => Some(e),
+                        Some(b) if !min && key(e) >= key(b) => Some(e),
+                        b => b,
+                    };
+                }
+                show_opt(t[0], best.cloned())
+            }
+            None => "bad-op".to_string(),
+        },
+        ["sum"] => match E::sum_want(rest) {
+            Some(v) => {
+                *pos = None;
+                format!("sum={}", v)
+            }
+            None => "bad-op".to_string(),
+        },
+        ["product"] => match E::product_want(rest) {
+            Some(v) => {
+                *pos = None;
+                format!("product={}", v)
+            }
+            None => "bad-op".to_string(),
+        },
+        _ => "bad-op".to_string(),
+    }
+}
+
+/// One call on the REAL iterator.  `live` = `None` once it has returned `None`, panicked, or was consumed by value.
+/// `remaining` = how many items the oracle says are still to come (for `size_hint`).
+fn real_step<E: Elem, I: Iterator<Item = E>>(live: &mut Option<I>, remaining: usize, seg: &str) -> String {
+    let t: Vec<&str> = seg.split_whitespace().collect();
+    if live.is_none() {
+        return "-".to_string();
+    }
+    // ops by `&mut self`
+    macro_rules! by_ref {
+        ($name:expr, $call:expr, $gone:expr, $show:expr) => {{
+            let it = live.as_mut().unwrap();
+            match catch(|| $call(it)) {
+                Err(e) => {
+                    *live = None;
+                    format!("{}={}", $name, e)
+                }
+                Ok(v) => {
+                    if $gone(&v) {
+                        *live = None;
+                    }
+                    $show(v)
+                }
+            }
+        }};
+    }
+    // ops by value
+    macro_rules! by_value {
+        ($name:expr, $call:expr, $show:expr) => {{
+            let it = live.take().unwrap();
+            match catch(move || $call(it)) {
+                Err(e) => format!("{}={}", $name, e),
+                Ok(v) => $show(v),
+            }
+        }};
+    }
+    match t.as_slice() {
+        ["next"] => by_ref!("next", |it: &mut I| it.next(), |v: &Option<E>| v.is_none(), |v| show_opt("next", v)),
+        ["hint"] => {
+            let it = live.as_mut().unwrap();
+            match catch(|| it.size_hint()) {
+                Err(e) => {
+                    *live = None;
+                    format!("hint={}", e)
+                }
+                Ok((lo, hi)) => {
+                    if lo <= remaining && hi.map_or(true, |h| remaining <= h) {
+                        "hint=ok".to_string()
+                    } else {
+                        format!("hint=bad(lower={},upper={:?},remaining={})", lo, hi, remaining)
+                    }
+                }
+            }
+        }
+        ["nth", k] => match k.parse::<usize>() {
+            Ok(k) => by_ref!("nth", |it: &mut I| it.nth(k), |v: &Option<E>| v.is_none(), |v| show_opt("nth", v)),
+            Err(_) => "bad-op".to_string(),
+        },
+        ["take", k] => match k.parse::<usize>() {
+            Ok(k) => by_ref!(
+                "take",
+                |it: &mut I| it.by_ref().take(k).collect::<Vec<E>>(),
+                |v: &Vec<E>| v.len() < k,
+                |v: Vec<E>| format!("take={}", E::show_coll(&v))
+            ),
+            Err(_) => "bad-op".to_string(),
+        },
+        ["find", pr] => match parse_pred::<E>(pr) {
+            Some(f) => by_ref!("find", |it: &mut I| it.find(|e| f(e)), |v: &Option<E>| v.is_none(), |v| show_opt("find", v)),
+            None => "bad-op".to_string(),
+        },
+        ["position", pr] => match parse_pred::<E>(pr) {
+            Some(f) => by_ref!(
+                "position",
+                |it: &mut I| it.position(|e| f(&e)),
+                |v: &Option<usize>| v.is_none(),
+                |v: Option<usize>| v.map_or("position=None".to_string(), |k| format!("position={}", k))
+            ),
+            None => "bad-op".to_string(),
+        },
+        ["any", pr] => match parse_pred::<E>(pr) {
+            Some(f) => by_ref!("any", |it: &mut I| it.any(|e| f(&e)), |v: &bool| !*v, |v: bool| format!("any={}", v)),
+            None => "bad-op".to_string(),
+        },
+        ["all", pr] => match parse_pred::<E>(pr) {
+            Some(f) => by_ref!("all", |it: &mut I| it.all(|e| f(&e)), |v: &bool| *v, |v: bool| format!("all={}", v)),
+            None => "bad-op".to_string(),
+        },
+        ["count"] => by_value!("count", |it: I| it.count(), |v: usize| format!("count={}", v)),
+        ["last"] => by_value!("last", |it: I| it.last(), |v| show_opt("last", v)),
+        ["reduce"] => by_value!("reduce", |it: I| it.reduce(|_a, b| b), |v| show_opt("reduce", v)),
+        ["fold"] => by_value!(
+            "fold",
+            |it: I| it.fold(Vec::new(), |mut v: Vec<E>, e| {
+                v.push(e);
+                v
+            }),
+            |v: Vec<E>| format!("fold={}", E::show_coll(&v))
+        ),
+        ["foreach"] => by_value!(
+            "foreach",
+            |it: I| {
+                let mut v: Vec<E> = Vec::new();
+                it.for_each(|e| v.push(e));
+                v
+            },
+            |v: Vec<E>| format!("foreach={}", E::show_coll(&v))
+        ),
+        ["collect"] => by_value!("collect", |it: I| it.collect::<Vec<E>>(), |v: Vec<E>| format!("collect={}", E::show_coll(&v))),
+        ["min"] => by_value!("min", |it: I| it.min(), |v| show_opt("min", v)),
+        ["max"] => by_value!("max", |it: I| it.max(), |v| show_opt("max", v)),
+        ["minkey", k] => match parse_key::<E>(k) {
+            Some(key) => by_value!("minkey", |it: I| it.min_by_key(|e| key(e)), |v| show_opt("minkey", v)),
+            None => "bad-op".to_string(),
+        },
+        ["maxkey", k] => match parse_key::<E>(k) {
+            Some(key) => by_value!("maxkey", |it: I| it.max_by_key(|e| key(e)), |v| show_opt("maxkey", v)),
+            None => "bad-op".to_string(),
+        },
+        ["minby", k] => match parse_key::<E>(k) {
+            Some(key) => by_value!("minby", |it: I| it.min_by(|a, b| key(a).cmp(&key(b))), |v| show_opt("minby", v)),
+            None => "bad-op".to_string(),
+        },
+        ["maxby", k] => match parse_key::<E>(k) {
+            Some(key) => by_value!("maxby", |it: I| it.max_by(|a, b| key(a).cmp(&key(b))), |v| show_opt("maxby", v)),
+            None => "bad-op".to_string(),
+        },
+        ["sum"] => {
+            if E::sum_want(&[]).is_none() {
+                return "bad-op".to_string();
+            }
+            by_value!("sum", |it: I| E::sum_real(it).unwrap(), |v: String| format!("sum={}", v))
+        }
+        ["product"] => {
+            if E::product_want(&[]).is_none() {
+                return "bad-op".to_string();
+            }
+            by_value!("product", |it: I| E::product_real(it).unwrap(), |v: String| format!("product={}", v))
+        }
+        _ => "bad-op".to_string(),
+    }
+}
+
+/// Another live iterator of the same crate, stepped between the ops of a script.  `want` is its own output when run
+/// alone (before anything else was created): objects must not influence each other.
+struct Decoy {
+    what: String,
+    next: Box<dyn FnMut() -> Option<u128>>,
+    want: Vec<u128>,
+    got: Vec<u128>,
+    done: bool,
+}
+
+impl Decoy {
+    /// `mk` is called twice: once for the reference run, once for the object that stays alive during the script
+    fn new<E: Elem, I: Iterator<Item = E> + 'static>(what: String, expect_len: usize, mk: impl Fn() -> I) -> Result<Decoy, String> {
+        let want: Vec<u128> = catch(|| mk().take(expect_len + 2).map(|e| e.print()).collect())?;
+        let mut it = catch(|| mk())?;
+        Ok(Decoy { what, next: Box::new(move || it.next().map(|e| e.print())), want, got: Vec::new(), done: false })
+    }
+    fn tick(&mut self) {
+        if !self.done && self.got.len() < self.want.len() + 2 {
+            let f = &mut self.next;
+            match catch(|| f()) {
+                Ok(Some(v)) => self.got.push(v),
+                _ => self.done = true,
+            }
+        }
+    }
+    fn finish(&mut self) -> Option<String> {
+        while !self.done && self.got.len() < self.want.len() + 2 {
+            self.tick();
+        }
+        if self.got == self.want {
+            None
+        } else {
+            let k = self.got.iter().zip(self.want.iter()).position(|(a, b)| a != b).unwrap_or(self.got.len().min(self.want.len()));
+            Some(format!("{} differs from its own fresh run at item {} (len {}/{})", self.what, k, self.got.len(), self.want.len()))
+        }
+    }
+}
+
+/// Run a script on one iterator made by `mk`.  `oracle` = the whole expected sequence (the harness' own brute force).
+/// 1. a fresh iterator, through `next()` only and at most two items beyond the expected length, must yield `oracle`
+///    (so an endless iterator is reported here and the by-value ops below are not run on it);
+/// 2. other iterators are created before and after the one under test and advanced by one item before every op;
+/// 3. every op is performed on the real iterator and, independently, on `oracle`; the first difference is named.
+fn script_case<E: Elem, I: Iterator<Item = E>>(
+    mk: &dyn Fn() -> I,
+    oracle: &[E],
+    mk_decoys: &dyn Fn() -> Result<Vec<Decoy>, String>,
+    segs: &[&str],
+) -> String {
+    match catch(|| mk().take(oracle.len() + 2).collect::<Vec<E>>()) {
+        Err(e) => return out1(&e),
+        Ok(v) => {
+            if let Some(d) = first_diff(&v, oracle, |e| e.show()) {
+                let raw = format!("stream={}", E::show_coll(&v));
+                return out2(&raw, &format!("oracle-mismatch {} :: {}", d, raw));
+            }
+        }
+    }
+    let mut decoys = match mk_decoys() {
+        Ok(d) => d,
+        Err(e) => return out1(&format!("decoy:{}", e)),
+    };
+    let it = match catch(|| mk()) {
+        Ok(it) => it,
+        Err(e) => return out1(&e),
+    };
+    match mk_decoys() {
+        Ok(d) => decoys.extend(d),
+        Err(e) => return out1(&format!("decoy:{}", e)),
+    }
+    let mut live = Some(it);
+    let mut pos = Some(0usize);
+    let mut outs: Vec<String> = Vec::new();
+    let mut problem: Option<String> = None;
+    for (k, seg) in segs.iter().enumerate() {
+        for d in decoys.iter_mut() {
+            d.tick();
+        }
+        let remaining = pos.map_or(0, |p| oracle.len() - p);
+        let got = real_step(&mut live, remaining, seg);
+        let want = want_step(oracle, &mut pos, seg);
+        if got != want && problem.is_none() {
+            problem = Some(format!("@op{} `{}` want {}", k + 1, seg.trim(), want));
+        }
+        outs.push(got);
+    }
+    drop(live);
+    for d in decoys.iter_mut() {
+        if let Some(e) = d.finish() {
+            if problem.is_none() {
+                problem = Some(format!("interleaved: {}", e));
+            }
+        }
+    }
+    let raw = outs.join(" ; ");
+    match problem {
+        Some(p) => out2(&raw, &format!("oracle-mismatch {} :: {}", p, raw)),
+        None => out1(&raw),
+    }
+}
+
+macro_rules! run_mask_script {
+    ($t:ty, $ut:ty, $sub:expr, $tok:expr, $w:expr, $ty:expr, $segs:expr) => {{
+        let x: $t = if $tok.starts_with('-') {
+            match $tok.parse::<i128>() {
+                Ok(v) => v as $t,
+                Err(_) => return "I bad-line | V bad-line".to_string(),
+            }
+        } else {
+            match $tok.parse::<u128>() {
+                Ok(v) => v as $t,
+                Err(_) => return "I bad-line | V bad-line".to_string(),
+            }
+        };
+        let xb = (x as $ut) as u128;
+        let k = if $sub { xb.count_ones() } else { $w - xb.count_ones() };
+        if k > SCRIPT_MAX_FREE_BITS || (k > 10 && $segs.iter().any(|s| is_minmax(s))) {
+            return out1("refused:too-many-elements");
+        }
+        let n = 1usize << k;
+        let oracle: Vec<$t> =
+            (if $sub { oracle_submasks(xb, $w) } else { oracle_supermasks(xb, $w) }).unwrap().iter().map(|&b| (b as $ut) as $t).collect();
+        // the other live iterators: the same kind on the rotated mask, the other kind on the complement (same length)
+        let rot = x.rotate_left(3);
+        let sub = $sub;
+        let decoys = move || -> Result<Vec<Decoy>, String> {
+            Ok(if sub {
+                vec![
+                    Decoy::new(format!("iter_submasks::<{}>({})", $ty, rot), n, move || iter_submasks(rot))?,
+                    Decoy::new(format!("iter_supermasks::<{}>({})", $ty, !x), n, move || iter_supermasks(!x))?,
+                ]
+            } else {
+                vec![
+                    Decoy::new(format!("iter_supermasks::<{}>({})", $ty, rot), n, move || iter_supermasks(rot))?,
+                    Decoy::new(format!("iter_submasks::<{}>({})", $ty, !x), n, move || iter_submasks(!x))?,
+                ]
+            })
+        };
+        if $sub {
+            script_case(&|| iter_submasks(x), &oracle, &decoys, $segs)
+        } else {
+            script_case(&|| iter_supermasks(x), &oracle, &decoys, $segs)
+        }
+    }};
+}
+
+fn run_mask_script_case(sub: bool, ty: &str, tok: &str, segs: &[&str]) -> String {
+    match ty {
+        "i8" => run_mask_script!(i8, u8, sub, tok, 8, ty, segs),
+        "u8" => run_mask_script!(u8, u8, sub, tok, 8, ty, segs),
+        "i16" => run_mask_script!(i16, u16, sub, tok, 16, ty, segs),
+        "u16" => run_mask_script!(u16, u16, sub, tok, 16, ty, segs),
+        "i32" => run_mask_script!(i32, u32, sub, tok, 32, ty, segs),
+        "u32" => run_mask_script!(u32, u32, sub, tok, 32, ty, segs),
+        "i64" => run_mask_script!(i64, u64, sub, tok, 64, ty, segs),
+        "u64" => run_mask_script!(u64, u64, sub, tok, 64, ty, segs),
+        "i128" => run_mask_script!(i128, u128, sub, tok, 128, ty, segs),
+        "u128" => run_mask_script!(u128, u128, sub, tok, 128, ty, segs),
+        "isize" => run_mask_script!(isize, usize, sub, tok, 64, ty, segs),
+        "usize" => run_mask_script!(usize, usize, sub, tok, 64, ty, segs),
+        _ => "I bad-type | V bad-type".to_string(),
+    }
+}
+
+/// `it <iterator case> ; op ; op ; …`
+fn run_script_case(po: &mut PermOracle, line: &str) -> String {
+    let mut parts = line.split(';');
+    let hdr: Vec<&str> = parts.next().unwrap_or("").split_whitespace().collect();
+    let segs: Vec<&str> = parts.collect();
+    if hdr.len() < 2 || hdr[0] != "it" {
+        return "I bad-line | V bad-line".to_string();
+    }
+    let (op, ty) = match hdr[1].split_once(':') {
+        Some((o, t)) => (o, t),
+        None => (hdr[1], ""),
+    };
+    match (op, hdr.len()) {
+        ("sub", 3) => run_mask_script_case(true, ty, hdr[2], &segs),
+        ("sup", 3) => run_mask_script_case(false, ty, hdr[2], &segs),
+        ("perms", 3) => {
+            let d = parse_list(hdr[2]);
+            if d.len() > MAX_SEQ_LEN {
+                return out1("refused:too-many-elements");
+            }
+            let n = match num_arrangements(&d, SCRIPT_MAX_ARRANGEMENTS) {
+                Some(n) => n,
+                None => return out1("refused:too-many-elements"),
+            };
+            if n > SCRIPT_MINMAX_MAX && segs.iter().any(|s| is_minmax(s)) {
+                return out1("refused:too-many-elements");
+            }
+            let oracle = oracle_perms(po, &d);
+            // the other live iterators: the reversed sequence shifted by one (as many arrangements)
+            let other: Vec<i64> = d.iter().rev().map(|v| v.saturating_add(1)).collect();
+            let count = n as usize;
+            let decoys = move || -> Result<Vec<Decoy>, String> {
+                let o = other.clone();
+                Ok(vec![Decoy::new(format!("iter_permutations({})", show_ints(&other)), count, move || iter_permutations(o.clone()))?])
+            };
+            script_case(&|| iter_permutations(d.clone()), &oracle, &decoys, &segs)
+        }
+        ("n4", 6) | ("n4d", 6) | ("n8", 6) => {
+            let a: Vec<u64> = match hdr[2..].iter().map(|t| t.parse::<u64>()).collect::<Result<Vec<u64>, _>>() {
+                Ok(a) => a,
+                Err(_) => return "I bad-line | V bad-line".to_string(),
+            };
+            let (n, m, i, j) = (a[0] as usize, a[1] as usize, a[2] as usize, a[3] as usize);
+            // expected sequence: the property fixes the order; take the offsets in the documented order and keep the
+            // cells of the brute-force scan
+            let cells = oracle_neighbours(op, a[0], a[1], a[2], a[3]);
+            let order: &[(i128, i128)] = match op {
+                "n4" => &[(0, 1), (-1, 0), (0, -1), (1, 0)],
+                "n4d" => &[(-1, 1), (-1, -1), (1, -1), (1, 1)],
+                _ => &[(0, 1), (-1, 1), (-1, 0), (-1, -1), (0, -1), (1, -1), (1, 0), (1, 1)],
+            };
+            let oracle: Vec<(usize, usize)> = order
+                .iter()
+                .map(|&(dx, dy)| (i as i128 + dx, j as i128 + dy))
+                .filter(|&(x, y)| x >= 0 && y >= 0 && cells.contains(&(x as u64, y as u64)))
+                .map(|(x, y)| (x as usize, y as usize))
+                .collect();
+            let decoys = move || -> Result<Vec<Decoy>, String> {
+                Ok(vec![
+                    Decoy::new(format!("iter_neighbours_8({},{},{},{})", m, n, j, i), 8, move || iter_neighbours_8(m, n, j, i))?,
+                    Decoy::new(format!("iter_neighbours_4d({},{},{},{})", n, m, i, j), 4, move || iter_neighbours_4d(n, m, i, j))?,
+                    Decoy::new(format!("iter_neighbours_4({},{},{},{})", m, n, j, i), 4, move || iter_neighbours_4(m, n, j, i))?,
+                ])
+            };
+            match op {
+                "n4" => script_case(&|| iter_neighbours_4(n, m, i, j), &oracle, &decoys, &segs),
+                "n4d" => script_case(&|| iter_neighbours_4d(n, m, i, j), &oracle, &decoys, &segs),
+                _ => script_case(&|| iter_neighbours_8(n, m, i, j), &oracle, &decoys, &segs),
             }
         }
         _ => "I bad-op | V bad-op".to_string(),
@@ -555,9 +1384,12 @@ fn pattern(rng: &mut SplitMix64, w: u32, k: u32) -> u128 {
             let mut v = 0u128;
             let mut c = 0;
             let anchors = [0u32, 7, 8, 15, 16, 31, 32, 63, 64, 65, 127];
+            let mut tries = 0;
             while c < k {
+                // (narrow types have fewer than `k` positions near the anchors: fall back to any position)
+                tries += 1;
                 let a = anchors[rng.below(anchors.len() as u64) as usize] % w;
-                let p = (a + rng.below(3) as u32) % w;
+                let p = if tries > 400 { rng.below(w as u64) as u32 } else { (a + rng.below(3) as u32) % w };
                 if (v >> p) & 1 == 0 {
                     v |= 1u128 << p;
                     c += 1;
@@ -625,8 +1457,128 @@ fn emit_np(emit: &mut dyn FnMut(String), st: &mut Stats, stream: &str, d: &[i64]
     }
 }
 
+/// A script: 0..=4 calls by `&mut self` (`next`, `size_hint`, `nth`, `by_ref().take`, `find`, `position`, `any`, `all`),
+/// usually a `size_hint`, then (9 times out of 10) one call that consumes the iterator by value; sometimes one more op
+/// after that (answered with `-`).  `n` = expected length of the sequence; `elem` makes an item literal for predicates.
+fn gen_script(
+    rng: &mut SplitMix64,
+    n: usize,
+    elem: &mut dyn FnMut(&mut SplitMix64) -> String,
+    numeric: bool,
+    minmax_ok: bool,
+    st: &mut Stats,
+) -> String {
+    let mut ops: Vec<String> = Vec::new();
+    let mut consuming = 0;
+    let pre = *rng.pick(&[0usize, 1, 1, 2, 2, 3, 4]);
+    let index = |rng: &mut SplitMix64| -> usize {
+        if rng.chance(3, 5) {
+            rng.below(3) as usize
+        } else {
+            rng.below(n as u64 + 2) as usize
+        }
+    };
+    let pred = |rng: &mut SplitMix64, elem: &mut dyn FnMut(&mut SplitMix64) -> String| -> String {
+        match rng.below(7) {
+            0 => "par".to_string(),
+            1 | 2 => format!("eq:{}", elem(rng)),
+            3 | 4 => format!("lt:{}", elem(rng)),
+            _ => format!("ge:{}", elem(rng)),
+        }
+    };
+    for _ in 0..pre {
+        let op = match rng.below(11) {
+            0..=3 => "next".to_string(),
+            4 | 5 => "hint".to_string(),
+            6 => format!("nth {}", index(rng)),
+            7 => format!("take {}", index(rng)),
+            8 => format!("{} {}", rng.pick(&["find", "position"]), pred(rng, elem)),
+            9 => format!("{} {}", rng.pick(&["any", "all"]), pred(rng, elem)),
+            _ => "next ; hint".to_string(),
+        };
+        if !op.starts_with("hint") {
+            consuming += 1;
+        }
+        ops.push(op);
+    }
+    if rng.chance(1, 2) {
+        ops.push("hint".to_string());
+    }
+    let mut terminal = false;
+    if rng.chance(9, 10) {
+        let mut choices: Vec<String> =
+            ["count", "count", "last", "fold", "foreach", "collect", "reduce"].iter().map(|s| s.to_string()).collect();
+        if minmax_ok {
+            for s in ["min", "max"] {
+                choices.push(s.to_string());
+            }
+            for s in ["minkey", "maxkey", "minby", "maxby"] {
+                choices.push(format!("{} {}", s, rng.pick(&["par", "par", "c0"])));
+            }
+        }
+        if numeric {
+            choices.push("sum".to_string());
+            choices.push("product".to_string());
+        }
+        ops.push(rng.pick(&choices).clone());
+        terminal = true;
+        if rng.chance(1, 6) {
+            ops.push(rng.pick(&["next", "hint", "count"]).to_string());
+        }
+    }
+    for o in &ops {
+        for part in o.split(" ; ") {
+            st.bump(&format!("script_op_{}", part.split_whitespace().next().unwrap_or("")));
+        }
+    }
+    st.bump("script_cases");
+    if consuming > 0 && terminal {
+        st.bump("script_by_value_call_after_partial_consumption");
+    }
+    if consuming > 0 && ops.iter().any(|o| o.contains("hint")) {
+        st.bump("script_size_hint_with_partial_consumption");
+    }
+    ops.iter().map(|o| format!(" {}", o)).collect::<Vec<_>>().join(" ;")
+}
+
+fn emit_mask_script(emit: &mut dyn FnMut(String), st: &mut Stats, rng: &mut SplitMix64, sub: bool, ty: &str, bits: u128) {
+    let w = bits_of(ty);
+    let k = if sub { bits.count_ones() } else { w - bits.count_ones() };
+    let mut elem = |rng: &mut SplitMix64| -> String {
+        let r = (rng.next_u64() as u128) << 64 | rng.next_u64() as u128;
+        let v = if sub { bits & r } else { (bits | r) & width_mask(w) };
+        to_signed_str(ty, v)
+    };
+    let ops = gen_script(rng, 1usize << k, &mut elem, true, k <= 10, st);
+    emit(format!("it {}:{} {} ;{}", if sub { "sub" } else { "sup" }, ty, to_signed_str(ty, bits), ops));
+    st.bump(if sub { "script_sub" } else { "script_sup" });
+    st.bump(&format!("script_mask_{}", ty));
+}
+
+fn emit_perm_script(emit: &mut dyn FnMut(String), st: &mut Stats, rng: &mut SplitMix64, d: &[i64]) {
+    let n = num_arrangements(d, SCRIPT_MAX_ARRANGEMENTS).unwrap_or(0);
+    let mut elem = |rng: &mut SplitMix64| -> String {
+        let mut e = d.to_vec();
+        for k in (1..e.len()).rev() {
+            let r = rng.below(k as u64 + 1) as usize;
+            e.swap(k, r);
+        }
+        list_str(&e)
+    };
+    let ops = gen_script(rng, n as usize, &mut elem, false, n <= SCRIPT_MINMAX_MAX, st);
+    emit(format!("it perms {} ;{}", list_str(d), ops));
+    st.bump("script_perms");
+}
+
 fn gen(args: &Args, emit: &mut dyn FnMut(String), st: &mut Stats) {
-    let thorough = args.tier == "thorough";
+    // `--profile debug` (debug assertions on, no optimisation): the same streams at a reduced size - the quick sizes in
+    // the thorough tier, the `light` sizes in the quick tier
+    let debug = args.extra.get("profile").map_or(false, |p| p == "debug");
+    let thorough = args.tier == "thorough" && !debug;
+    let light = debug && args.tier != "thorough";
+    if debug {
+        st.bump("profile_debug_reduced_stream");
+    }
     let mut rng = SplitMix64::new(args.seed ^ 0xC15);
 
     // ---- masks (1): every mask of the 8-bit types; of the 16-bit types exhaustively (thorough) or
@@ -640,8 +1592,9 @@ fn gen(args: &Args, emit: &mut dyn FnMut(String), st: &mut Stats) {
     for ty in ["u16", "i16"] {
         for x in 0..65536u128 {
             let pc = x.count_ones();
-            let take_sub = thorough || pc <= 6 || rng.chance(1, 16);
-            let take_sup = thorough || 16 - pc <= 6 || rng.chance(1, 16);
+            let (small, den) = if light { (3, 400) } else { (6, 16) };
+            let take_sub = thorough || pc <= small || rng.chance(1, den);
+            let take_sup = thorough || 16 - pc <= small || rng.chance(1, den);
             if take_sub {
                 emit_mask(emit, st, true, ty, x);
             }
@@ -651,7 +1604,7 @@ fn gen(args: &Args, emit: &mut dyn FnMut(String), st: &mut Stats) {
         }
     }
     // ---- masks (2): wider types, <= 12 free bits, structured and random; boundary patterns
-    let per_type = if thorough { 6000 } else { 250 };
+    let per_type = if thorough { 6000 } else if light { 40 } else { 250 };
     for ty in TYPES.iter().filter(|t| bits_of(t) >= 32) {
         let w = bits_of(ty);
         let wm = width_mask(w);
@@ -677,7 +1630,7 @@ fn gen(args: &Args, emit: &mut dyn FnMut(String), st: &mut Stats) {
     }
 
     // ---- next_permutation / iter_permutations (1): every sequence over {0,1,2} up to length 7
-    let maxlen = 7;
+    let maxlen = if light { 6 } else { 7 };
     for len in 0..=maxlen {
         let total = 3u32.pow(len as u32);
         for code in 0..total {
@@ -698,7 +1651,7 @@ fn gen(args: &Args, emit: &mut dyn FnMut(String), st: &mut Stats) {
     }
     // ---- (2): every permutation of up to 8 distinct elements (quick: up to 7; the 8! steps are also
     //      covered by the single `perms` case of 8 distinct elements, which makes every one of them)
-    let maxdist = if thorough { 8 } else { 7 };
+    let maxdist = if thorough { 8 } else if light { 6 } else { 7 };
     for len in 1..=maxdist {
         let base: Vec<i64> = (0..len as i64).map(|v| v * 3 - 5).collect(); // distinct, some negative
         let mut all = Vec::new();
@@ -718,7 +1671,7 @@ fn gen(args: &Args, emit: &mut dyn FnMut(String), st: &mut Stats) {
         st.bump("perms_distinct");
     }
     // ---- (3): random multisets with wide values and many duplicates
-    let nrand = if thorough { 20000 } else { 1500 };
+    let nrand = if thorough { 20000 } else if light { 300 } else { 1500 };
     for _ in 0..nrand {
         let len = rng.below(9) as usize;
         let alpha = 1 + rng.below(4) as i64;
@@ -741,7 +1694,7 @@ fn gen(args: &Args, emit: &mut dyn FnMut(String), st: &mut Stats) {
 
     // ---- (4) by design: the pivot value occurs again in the non-increasing suffix, next to larger and smaller values
     //      (prefix ++ [x] ++ suffix, suffix non-increasing, contains x and something > x), length <= 7
-    let ndup = if thorough { 20000 } else { 1500 };
+    let ndup = if thorough { 20000 } else if light { 300 } else { 1500 };
     for _ in 0..ndup {
         let x = rng.range_i64(-2, 2);
         let pre_len = rng.below(3) as usize;
@@ -768,7 +1721,7 @@ fn gen(args: &Args, emit: &mut dyn FnMut(String), st: &mut Stats) {
     // ---- (5) walks: K successive steps from a start point; 8 distinct elements and 8-element multisets
     //      (quick: a few hundred start points x 1000 steps; together with the `perms` case of 8 distinct elements,
     //      which steps through all 8! arrangements, this puts the 8-element clause into the quick tier)
-    let (nwalk, steps) = if thorough { (1000, 5000) } else { (210, 1000) };
+    let (nwalk, steps) = if thorough { (1000, 5000) } else if light { (21, 200) } else { (210, 1000) };
     for w in 0..nwalk {
         let mut d: Vec<i64> = if w % 3 == 2 {
             (0..8).map(|_| rng.range_i64(0, 3)).collect()
@@ -782,6 +1735,178 @@ fn gen(args: &Args, emit: &mut dyn FnMut(String), st: &mut Stats) {
         emit(format!("npk {} {}", steps, list_str(&d)));
         st.bump(if w % 3 == 2 { "npk_walks_multiset8" } else { "npk_walks_distinct8" });
         st.add("npk_steps", steps as u64);
+    }
+
+    // ---- (6) long sequences with few distinct values (lengths up to 40): `next_permutation` implementations switch
+    //      strategy with the length of the tail (linear scan / bisection), so the tail length must be covered as such
+    //  (a) systematic: every tail length 1..=39 x 0..=3 copies of the pivot value in the tail x 1..=3 values above it
+    let reps = if thorough { 12 } else { 1 };
+    for _ in 0..reps {
+        for t in 1..=39usize {
+            for c in 0..=3usize {
+                for a in 1..=3usize {
+                    if a + c > t {
+                        continue;
+                    }
+                    let x = rng.range_i64(-1, 1);
+                    let mut tail: Vec<i64> = Vec::with_capacity(t);
+                    for _ in 0..a {
+                        tail.push(x + 1 + rng.below(2) as i64);
+                    }
+                    for _ in 0..c {
+                        tail.push(x);
+                    }
+                    while tail.len() < t {
+                        tail.push(x - 1 - rng.below(2) as i64);
+                    }
+                    tail.sort_by(|p, q| q.cmp(p));
+                    let pre_len = rng.below((40 - 1 - t).min(3) as u64 + 1) as usize;
+                    let mut d: Vec<i64> = (0..pre_len).map(|_| rng.range_i64(-2, 2)).collect();
+                    d.push(x);
+                    d.extend(tail);
+                    emit_np(emit, st, "np_long_systematic", &d);
+                    st.bump(&format!("np_long_tail_len_{:02}", t));
+                }
+            }
+        }
+    }
+    //  (b) random: words over 2..=5 letters, length 10..=40, the last part sorted in descending order (so that the pivot
+    //      sits at a random depth), plus the extreme shapes
+    let nlong = if thorough { 40000 } else if light { 400 } else { 2500 };
+    for k in 0..nlong {
+        let len = 10 + rng.below(31) as usize;
+        let alpha = 1 + rng.below(4) as i64;
+        let mut d: Vec<i64> = (0..len).map(|_| rng.range_i64(0, alpha)).collect();
+        match k % 8 {
+            0 => d.sort(),                       // first arrangement
+            1 => d.sort_by(|p, q| q.cmp(p)),     // last arrangement: wraps, returns false
+            2 => {}                              // plain random word
+            _ => {
+                let t = 1 + rng.below(len as u64 - 1) as usize;
+                d[len - t..].sort_by(|p, q| q.cmp(p));
+            }
+        }
+        emit_np(emit, st, "np_long_random", &d);
+    }
+    //  (c) walks over long multisets
+    let (nwalk_long, steps_long) = if thorough { (150, 1000) } else if light { (6, 100) } else { (24, 400) };
+    for w in 0..nwalk_long {
+        let len = 12 + rng.below(29) as usize;
+        let alpha = 1 + rng.below(3) as i64;
+        let mut d: Vec<i64> = (0..len).map(|_| rng.range_i64(0, alpha)).collect();
+        if w % 3 == 0 {
+            // start shortly before the last arrangement: the walk wraps around
+            d.sort_by(|p, q| q.cmp(p));
+            let l = d.len();
+            d[l - 6..].reverse();
+        } else if w % 3 == 1 {
+            let t = 17 + rng.below(len.saturating_sub(17).max(1) as u64) as usize;
+            let t = t.min(len - 1);
+            d[len - t..].sort_by(|p, q| q.cmp(p));
+        }
+        emit(format!("npk {} {}", steps_long, list_str(&d)));
+        st.bump("npk_walks_long");
+        st.add("npk_steps", steps_long as u64);
+    }
+    //  (d) iter_permutations on long sequences with few arrangements: one majority value and 1..=3 others
+    let (nperm_long, cap) = if thorough { (500, 20_000u128) } else if light { (12, 1_000u128) } else { (60, 3_000u128) };
+    let mut made = 0;
+    let mut long_multisets: Vec<Vec<i64>> = Vec::new();
+    while made < nperm_long {
+        let len = 10 + rng.below(31) as usize;
+        let minority = 1 + rng.below(3) as usize;
+        let mut d: Vec<i64> = vec![0; len - minority];
+        for _ in 0..minority {
+            d.push(*rng.pick(&[-1i64, 1, 1, 2]));
+        }
+        if num_arrangements(&d, cap).is_none() {
+            continue;
+        }
+        for k in (1..d.len()).rev() {
+            let r = rng.below(k as u64 + 1) as usize;
+            d.swap(k, r);
+        }
+        emit(format!("perms {}", list_str(&d)));
+        st.bump("perms_long_few_arrangements");
+        st.bump(&format!("perms_long_len_{:02}", d.len()));
+        if long_multisets.len() < 400 {
+            long_multisets.push(d);
+        }
+        made += 1;
+    }
+
+    // ---- scripts: every provided `Iterator` method, also after partial consumption (see `run_script`)
+    //  masks (1): every mask of u8 / i8, both iterators, three scripts each
+    for ty in ["u8", "i8"] {
+        for x in 0..256u128 {
+            for sub in [true, false] {
+                for _ in 0..(if light { 1 } else { 3 }) {
+                    emit_mask_script(emit, st, &mut rng, sub, ty, x);
+                }
+            }
+        }
+    }
+    //  masks (2): 16-bit and wider types, at most 10 free bits
+    let nscript_wide = if thorough { 2000 } else if light { 30 } else { 150 };
+    for ty in TYPES.iter().filter(|t| bits_of(t) >= 16) {
+        let w = bits_of(ty);
+        for _ in 0..nscript_wide {
+            let k = if rng.chance(1, 6) { rng.below(11) as u32 } else { rng.below(7) as u32 };
+            let sub = rng.chance(1, 2);
+            let p = pattern(&mut rng, w, k);
+            let bits = if sub { p } else { !p & width_mask(w) };
+            emit_mask_script(emit, st, &mut rng, sub, ty, bits);
+        }
+    }
+    //  permutations: every multiset over {0,1,2} up to length 5 (four scripts each), random multisets up to length 7,
+    //  and the long sequences with few arrangements
+    for len in 0..=5usize {
+        for code in 0..3u32.pow(len as u32) {
+            let mut c = code;
+            let mut d = Vec::with_capacity(len);
+            for _ in 0..len {
+                d.push((c % 3) as i64);
+                c /= 3;
+            }
+            if d.windows(2).all(|p| p[0] <= p[1]) {
+                for _ in 0..4 {
+                    emit_perm_script(emit, st, &mut rng, &d);
+                }
+            }
+        }
+    }
+    let nscript_perm = if thorough { 10000 } else if light { 150 } else { 700 };
+    for _ in 0..nscript_perm {
+        let len = rng.below(8) as usize;
+        let alpha = 1 + rng.below(4) as i64;
+        let d: Vec<i64> = (0..len).map(|_| rng.range_i64(-1, alpha - 1)).collect();
+        emit_perm_script(emit, st, &mut rng, &d);
+    }
+    for d in long_multisets.iter().take(if thorough { 400 } else if light { 8 } else { 40 }) {
+        emit_perm_script(emit, st, &mut rng, d);
+    }
+    //  neighbours: small grids at every kind of cell, and large grids at the borders
+    let nscript_cell = if thorough { 20000 } else if light { 300 } else { 1500 };
+    for k in 0..nscript_cell {
+        let (n, m, i, j) = if k % 8 == 0 {
+            let n = (1u64 << (1 + rng.below(61))) + rng.below(3);
+            let m = (1u64 << (1 + rng.below(61))) + rng.below(3);
+            let i = *rng.pick(&[0, n - 1, n - 2, n / 2]);
+            let j = *rng.pick(&[0, m - 1, m - 2, m / 2]);
+            (n, m, i, j)
+        } else {
+            let n = rng.below(6);
+            let m = rng.below(6);
+            (n, m, rng.below(n + 1), rng.below(m + 1))
+        };
+        let kind = *rng.pick(&["n4", "n4d", "n8"]);
+        let hdr = format!("{} {} {} {} {}", kind, n, m, i, j);
+        let mut elem = |rng: &mut SplitMix64| -> String {
+            format!("{},{}", (i + rng.below(3)).saturating_sub(1), (j + rng.below(3)).saturating_sub(1))
+        };
+        let ops = gen_script(&mut rng, 8, &mut elem, false, true, st);
+        emit(format!("it {} ;{}", hdr, ops));
+        st.bump(&format!("script_{}", kind));
     }
 
     // ---- neighbours (1): every grid up to 6x6 (including 0xk, kx0, 1x1), every cell, and the cells just
@@ -806,7 +1931,7 @@ fn gen(args: &Args, emit: &mut dyn FnMut(String), st: &mut Stats) {
         }
     }
     // ---- (2): large grids, cells on and next to the borders (values < 2^62)
-    let nbig = if thorough { 20000 } else { 1500 };
+    let nbig = if thorough { 20000 } else if light { 300 } else { 1500 };
     for _ in 0..nbig {
         let big = |rng: &mut SplitMix64| -> u64 {
             match rng.below(5) {
@@ -833,7 +1958,41 @@ fn gen(args: &Args, emit: &mut dyn FnMut(String), st: &mut Stats) {
     }
 }
 
+// ---------------------------------------------------------------- hang detection
+
+/// even = idle, odd = a case is being answered; bumped before and after every case
+static CASE_CLOCK: AtomicU64 = AtomicU64::new(0);
+
+/// A call into rlib that never returns (an endless loop in `next_permutation`, a `count()` on an iterator that never
+/// ends) cannot be interrupted from inside the process.  The watchdog ends the process when one case has been running
+/// for `E_ITER_HANG_S` seconds (default 20; the slowest regular case takes well under a second): `check` then finds
+/// the first unanswered case line and reports it as a violation with that input.
+fn start_watchdog() {
+    let limit = std::env::var("E_ITER_HANG_S").ok().and_then(|v| v.parse::<u64>().ok()).unwrap_or(20);
+    std::thread::spawn(move || {
+        let mut last = CASE_CLOCK.load(Ordering::SeqCst);
+        let mut since = std::time::Instant::now();
+        loop {
+            std::thread::sleep(std::time::Duration::from_millis(200));
+            let c = CASE_CLOCK.load(Ordering::SeqCst);
+            if c != last {
+                last = c;
+                since = std::time::Instant::now();
+            } else if c % 2 == 1 && since.elapsed().as_secs() >= limit {
+                eprintln!("e_iter: no answer to case number {} within {} s (hang); giving up", c / 2 + 1, limit);
+                std::process::exit(3);
+            }
+        }
+    });
+}
+
 fn main() {
     let mut po = PermOracle { cache: HashMap::new(), stored: 0, misses: 0 };
-    cli(gen, move |line| run_case(&mut po, line));
+    start_watchdog();
+    cli(gen, move |line| {
+        CASE_CLOCK.fetch_add(1, Ordering::SeqCst);
+        let r = run_case(&mut po, line);
+        CASE_CLOCK.fetch_add(1, Ordering::SeqCst);
+        r
+    });
 }
